@@ -7,8 +7,10 @@ from typing import Any, Dict, List, Optional, Tuple
 
 from harness.extract import obs_enums as x_enums
 from harness.extract import obs_tables as x_tables
+from harness.extract import obs_config as x_cfg
 from harness.lib.core import VERIF, Ctx, Rng, lean_lock, run_driver
 from harness.rigs import obs as rig
+from harness.rigs import obs_env as env
 
 MANIFEST = {
     "text": "Lean 4 proof, for every observation object (any nesting of the service/application/file/folder/NIC/port/link/ACL/host/"
@@ -16,32 +18,133 @@ MANIFEST = {
             "enumerated quantities are member values of the regenerated simulator enumerations (every count, every traffic amount, "
             "component present / absent / node not ON), that the value `observe` returns is contained in `space` (gymnasium "
             "Discrete/Dict rule), that every `default_observation` is contained, that observing never changes the space, and that "
-            "this holds along every trajectory of states. ACL-carrying components: partial (hypothesis excludes num_rules "
-            "above the ACL's slots and repeated list entries; both are open findings with proved counterexamples). Tie: "
-            "enum members, Discrete sizes, clamps, status codes, default literals and the threshold categorisers regenerated from "
-            "the source (Gen/ObsEnums, Gen/ObsTables; obligations C02_gen_*) + differential rig R-obs on the real classes "
-            "(synthetic states) and on PrimaiteGymEnv trajectories (nested and flattened membership).",
+            "this holds along every trajectory of states. The objects are also derived FROM THE SCENARIO'S WORDS: Model/ObsConfig "
+            "models every ConfigSchema default, the push-down of every from_config, padding/truncation and Python truthiness; "
+            "every object built from an accepted observation_space section satisfies the invariant the in-space theorems need "
+            "(C02_raw_build_ok), so membership holds for everything a scenario can configure (C02_built_run_in_space). "
+            "Environment level: nested or flattened, every observation of an episode is a member of the space observation_space "
+            "declares during THAT episode, the space does not change within an episode, and a constant schedule declares one space "
+            "(C02_env_*); flattening a member gives a 0/1 vector whose length is a function of the space only. "
+            "PARTIAL (explicit decidable hypotheses, counterexamples proved): ACL-carrying components exclude num_rules above the "
+            "ACL's slots (F-6, open); flattened results exclude spaces with an empty sub-dictionary, which gymnasium refuses "
+            "(F-C02-2, open). Tie: enum members, Discrete sizes, clamps, status codes, default literals, threshold categorisers "
+            "(Gen/ObsEnums, Gen/ObsTables), the ORDER of events in every __init__ (pads/truncations precede every read by "
+            "default_observation), no in-place write through default_observation / cached_obs in any observe, the exact bodies of "
+            "PrimaiteGymEnv.agent / observation_space / action_space / _get_obs and no stored space attribute (Gen/ObsCfgTables; "
+            "obligations C02_gen_*) + differential rig R-obs: the model builds its objects from the same configuration text as the "
+            "implementation (generated scenario-style configurations with explicit lists shorter/equal/longer than their counts, "
+            "per-node overrides, ACL sub-configs, rejected configurations), every object of every tree goes through the "
+            "default/space/ON-observe key-structure oracle, synthetic states, and PrimaiteGymEnv trajectories (shipped, toggled, "
+            "regenerated observation spaces, generated scenarios, shipped and generated episode schedules) with the spaces read "
+            "through the public properties at construction, after every reset and at every step.",
     "note": "C02-specific: float binning int(x/b*9) is modelled on exact rationals; steps where float rounding differs from the exact "
-            "bin are excluded from the value comparison (never from the membership check). gymnasium's flatten is trusted but "
-            "checked on every trajectory step.",
-    "technique": "Lean 4 theorems over an executable model of the observation classes; model tied by regenerated tables and a differential rig",
+            "bin are excluded from the value comparison (never from the membership check). gymnasium's flatten / flatten_space are "
+            "trusted; modelled for Discrete/Dict trees and checked on every trajectory step (length, number of ones, refusal of empty "
+            "Dicts). Action-space constancy is checked by the rig (equality with the space read at construction, and within every "
+            "episode) and tied by the Gen body of action_space; the action manager itself is not modelled here. Ray wrappers are not run.",
+    "technique": "Lean 4 theorems over an executable model of the observation classes and of their construction from the scenario; model tied by regenerated tables and a differential rig",
     "design_ref": "5/C02",
 }
-MODULES = ["PrimaiteModel.Props.C02"]
+MODULES = ["PrimaiteModel.Props.C02", "PrimaiteModel.Props.C02Cfg"]
 EXE = "drv_c02"
 
 
 # ---------------------------------------------------------------------------------------------------- component level
-def component_case(rng: Rng, n_states: int, defects: bool) -> dict:
-    """Build one real object tree, feed it a sequence of synthetic states; returns everything needed for the diff."""
+def innermost(bad: List[dict]) -> List[dict]:
+    """a failure inside a child shows in every ancestor too: keep the innermost object per check"""
+    def inner(b):
+        pre = "" if b["path"] == "/" else b["path"]
+        return not any(o is not b and o.get("check") == b.get("check") and o["path"] != b["path"] and o["path"].startswith(pre + "/") for o in bad)
+    return [b for b in bad if inner(b)]
+
+
+def tree_oracle(cfg: dict, ev: Dict[str, List[int]]) -> List[dict]:
+    """The property's oracle on EVERY object of a freshly constructed tree (a second instance, so that the main sequence keeps its
+    memory): the default observation is a member of the space; space, default observation and an all-present, all-ON observation
+    have the same key structure; the ON observation is a member; observing leaves every default observation as it was."""
+    root = rig.build_impl(cfg)
+    if root is None:
+        return []
+    bad: List[dict] = []
+    nodes = rig.walk(root)
+    before = {path: rig.canon(o.default_observation) for path, o in nodes}
+    full = rig.full_state(root, ev)
+    for path, o in nodes:
+        cls = type(o).__name__
+        sp = o.space
+        d = o.default_observation
+        csp = rig.canon_space(sp)
+        if not sp.contains(d):
+            bad.append({"class": cls, "check": "space.contains(default_observation)", "path": path,
+                        "detail": rig.shape_diff(rig.shape(rig.canon(d)), rig.shape(csp)) or str(rig.leaves_out_of_space(rig.canon(d), csp)[:3])})
+        sd = rig.shape_diff(rig.shape(rig.canon(d)), rig.shape(csp))
+        if sd:
+            bad.append({"class": cls, "check": "keys(default_observation) == keys(space)", "path": path, "detail": sd})
+    # one ON observation of the whole tree, then each object on its own (children have observed once more: memory only, shape unaffected)
+    for path, o in nodes:
+        cls = type(o).__name__
+        try:
+            v = o.observe(full)
+        except Exception as e:  # noqa: BLE001
+            b = {"class": cls, "check": "observe(all-present state) raises", "path": path, "detail": f"{type(e).__name__}: {e}"}
+            if isinstance(e, KeyError) and e.args and isinstance(e.args[0], int) and e.args[0] >= 24:
+                b["sig"] = {"kind": "raises", "site": "ACLObservation.observe", "cause": "num_rules-exceeds-slots"}  # F-6 (open)
+            bad.append(b)
+            continue
+        sp = o.space
+        sd = rig.shape_diff(rig.shape(rig.canon(v)), rig.shape(rig.canon_space(sp)))
+        if sd:
+            bad.append({"class": cls, "check": "keys(observe(all-present state)) == keys(space)", "path": path, "detail": sd})
+        elif not sp.contains(v):
+            bad.append({"class": cls, "check": "space.contains(observe(all-present state))", "path": path,
+                        "detail": str(rig.leaves_out_of_space(rig.canon(v), rig.canon_space(sp))[:3])})
+    for path, o in nodes:
+        if rig.canon(o.default_observation) != before[path]:
+            bad.append({"class": type(o).__name__, "check": "default_observation unchanged by observe", "path": path,
+                        "detail": rig.first_diff(before[path], rig.canon(o.default_observation))})
+    return innermost(bad)
+
+
+def flatten_probe(sp, value, want=None):
+    """(`<length> <number of leaves>` of flatten_space / flatten, or `raised`; a description when something is inconsistent)"""
+    import gymnasium
+    import numpy as np
+    try:
+        n = int(gymnasium.spaces.flatten_space(sp).shape[0])
+        x = gymnasium.spaces.flatten(sp, value)
+    except ValueError as e:
+        if "need at least one array to concatenate" in str(e):
+            return "raised", None
+        return "raised", f"flatten raises {type(e).__name__}: {e}"
+    except Exception as e:  # noqa: BLE001
+        return "raised", f"flatten raises {type(e).__name__}: {e}"
+    leaves = len(env.leaf_paths(rig.canon(value)))
+    if len(x) != n or int(np.sum(x)) != leaves or not set(np.unique(x)) <= {0, 1}:
+        return f"{n} {leaves}", f"flatten(space, value) has {len(x)} entries / {int(np.sum(x))} ones, flatten_space says {n}, the value has {leaves} leaves"
+    if want is not None and f"{n} {leaves}" != want:
+        return f"{n} {leaves}", f"flattened length changed between observations: {n} {leaves} vs {want}"
+    return f"{n} {leaves}", None
+
+
+def component_case(rng: Rng, n_states: int, defects: bool, invalid: bool = False) -> dict:
+    """Build one real object tree from a generated scenario-style configuration, feed it a sequence of synthetic states; the model
+    builds ITS object from the same configuration text (`rawcfg`).  Returns everything needed for the diff."""
     capture = rng.chance(1, 2)
     rig.set_capture(capture)
-    obj, facts = rig.gen_object(rng, defects)
+    obj, facts = rig.gen_object(rng, defects, invalid)
     ev = rig.enum_values()
-    lines = ["reset", f"capture {rig.B(capture)}", "cfg " + " ".join(rig.obj_tokens(obj)), "space", "default"]
+    osp, th = rig.split_cfg(facts["cfg"])
+    lines = ["reset", f"capture {rig.B(capture)}", rig.rawcfg_line(osp, th), "show", "space", "flatdim", "default"]
+    if obj is None:
+        return {"capture": capture, "facts": facts, "lines": lines[:3], "impl": ["ok", "ok", "rejected"], "space": None, "states": [],
+                "rejected": getattr(rig.build_impl, "last_error", "?"), "tree": [], "defaults_changed": []}
     sp = obj.space
     cspace = rig.canon_space(sp)
-    impl: List[Any] = ["ok", "ok", "ok", cspace, (rig.canon(obj.default_observation), bool(sp.contains(obj.default_observation)), None, False)]
+    nodes = rig.walk(obj)
+    before = {path: rig.canon(o.default_observation) for path, o in nodes}
+    flat_dim, flat_bad = flatten_probe(sp, obj.default_observation)
+    impl: List[Any] = ["ok", "ok", "ok", " ".join(rig.obj_tokens(obj, fresh=True)), cspace, flat_dim,
+                       (rig.canon(obj.default_observation), bool(sp.contains(obj.default_observation)), None, False)]
     states = []
     for _ in range(n_states):
         st = rig.gen_state(rng, ev, capture, list((facts["mt"] or {}).keys()), sorted({q for v in (facts["mt"] or {}).values() for q in v}),
@@ -54,7 +157,45 @@ def component_case(rng: Rng, n_states: int, defects: bool) -> dict:
         impl.append((o, contained, exc, rig.float_boundary(pairs)))
         if o == "raised":
             break  # after an exception the object's memory is half-updated; stop the sequence on both sides
-    return {"capture": capture, "facts": facts, "lines": lines, "impl": impl, "space": cspace, "states": states}
+        if contained and not flat_bad:
+            _, bad2 = flatten_probe(sp, raw, want=flat_dim)
+            flat_bad = flat_bad or bad2
+    changed = [{"class": type(o).__name__, "path": path, "detail": rig.first_diff(before[path], rig.canon(o.default_observation))}
+               for path, o in nodes if rig.canon(o.default_observation) != before[path]]
+    return {"capture": capture, "facts": facts, "lines": lines, "impl": impl, "space": cspace, "states": states,
+            "tree": tree_oracle(facts["cfg"], ev), "defaults_changed": innermost(changed), "objects": len(nodes), "flat_bad": flat_bad}
+
+
+def length_relations(ctx: Ctx, cfg: dict) -> None:
+    """evidence: how the generated explicit lists relate to their `num_*` (shorter / equal / longer / list absent), per kind"""
+    for comp in cfg["options"]["components"]:
+        if comp["type"] != "nodes":
+            continue
+        o = comp["options"]
+
+        def rel(kind, lst, n):
+            if n is None:
+                ctx.count(f"gen:{kind}:count-missing")
+            elif lst is None:
+                ctx.count(f"gen:{kind}:list-absent")
+            else:
+                ctx.count(f"gen:{kind}:" + ("empty-list" if not lst and n else "shorter" if len(lst) < n else "equal" if len(lst) == n else "longer"))
+
+        def eff(h, k):
+            return h.get(k) if h.get(k) is not None else o.get(k)
+        for h in o.get("hosts", []):
+            rel("services", h.get("services"), eff(h, "num_services"))
+            rel("applications", h.get("applications"), eff(h, "num_applications"))
+            rel("folders", h.get("folders"), eff(h, "num_folders"))
+            rel("nics", h.get("network_interfaces"), eff(h, "num_nics"))
+            for f in h.get("folders") or []:
+                rel("files", f.get("files"), eff(h, "num_files"))
+            for k in ("include_users", "include_nmne", "include_num_access", "file_system_requires_scan", "services_requires_scan", "applications_requires_scan"):
+                ctx.count(f"gen:host-option:{k}:" + ("absent" if k not in h else "null" if h[k] is None else "own-value"))
+        for r in o.get("routers", []):
+            rel("router-ports", r.get("ports"), eff(r, "num_ports"))
+            ctx.count("gen:router-acl:" + ("sub-config" if "acl" in r else "absent"))
+            ctx.count("gen:router-include_users:" + ("absent" if "include_users" not in r else "null" if r["include_users"] is None else "own-value"))
 
 
 def parse_report(line: str) -> Tuple[Any, Optional[bool]]:
@@ -64,28 +205,77 @@ def parse_report(line: str) -> Tuple[Any, Optional[bool]]:
     return rig.parse_val(rest.split()), head == "1"
 
 
+def token_diff(a: str, b: str) -> str:
+    x, y = a.split(), b.split()
+    for i, (p, q) in enumerate(zip(x, y)):
+        if p != q:
+            return f"token {i}: impl …{' '.join(x[max(0, i - 6):i + 3])} | model …{' '.join(y[max(0, i - 6):i + 3])}"
+    return f"lengths {len(x)} vs {len(y)}"
+
+
+SPACE_AT, FLAT_AT, DEFAULT_AT, FIRST_OBS = 4, 5, 6, 7
+
+
 def check_case(ctx: Ctx, name: str, case: dict, model: List[str]) -> bool:
     """diff one component-level case; returns True when implementation and model agree everywhere"""
     impl = case["impl"]
     agree = True
-    # space and default
-    mspace = rig.parse_val(model[3].split())
-    if mspace != impl[3]:
+    cfg = case["facts"]["cfg"]
+    # construction: accepted / rejected by both
+    if impl[2] != model[2]:
+        ctx.violation({"kind": "model-vs-impl", "what": "construction accepted/rejected"},
+                      f"{name}: constructing the observation from the configuration: implementation {impl[2]} ({case.get('rejected', '')}), model {model[2]}",
+                      {"case": name, "cfg": cfg})
+        return False
+    ctx.count("component:construction-" + impl[2])
+    if impl[2] == "rejected":
+        return True
+    # the object the model builds from the scenario's words is the object the implementation built
+    if impl[3] != model[3]:
         agree = False
-        ctx.violation({"kind": "model-vs-impl", "what": "space"}, f"{name}: declared space differs from the model's: {rig.first_diff(impl[3], mspace)}",
-                      {"case": name, "cfg": case["facts"]["cfg"], "impl_space": impl[3], "model_space": mspace})
-    for idx in range(4, len(impl)):
+        ctx.violation({"kind": "construction-vs-scenario", "what": "constructed object differs from from_config(model) of the scenario", "class": "component"},
+                      f"{name}: the constructed observation objects are not what the configuration says: {token_diff(impl[3], model[3])}",
+                      {"case": name, "cfg": cfg, "diff": token_diff(impl[3], model[3])})
+    # the property's oracle on every object of the tree
+    for b in case["tree"]:
+        ctx.violation(dict(b.get("sig") or {"kind": "tree-oracle", "class": b["class"], "check": b["check"]}, property_oracle=b["check"]),
+                      f"{name}: {b['class']} at {b['path']}: {b['check']} fails: {b['detail']}", {"case": name, "cfg": cfg, "problem": b})
+    for b in case["defaults_changed"]:
+        ctx.violation({"kind": "tree-oracle", "class": b["class"], "check": "default_observation unchanged by observe"},
+                      f"{name}: {b['class']} at {b['path']}: default_observation was changed by observe(): {b['detail']}",
+                      {"case": name, "cfg": cfg, "capture": case["capture"], "states": case["states"], "problem": b})
+    # space and default
+    mspace = rig.parse_val(model[SPACE_AT].split())
+    if mspace != impl[SPACE_AT]:
+        agree = False
+        ctx.violation({"kind": "model-vs-impl", "what": "space"}, f"{name}: declared space differs from the model's: {rig.first_diff(impl[SPACE_AT], mspace)}",
+                      {"case": name, "cfg": cfg, "impl_space": impl[SPACE_AT], "model_space": mspace})
+    # flattening: length and number of leaves are a function of the space (model: flatDim), or gymnasium refuses the space (F-C02-2)
+    ctx.count("component:flatten-" + ("raises (space with an empty Dict)" if impl[FLAT_AT] == "raised" else "ok"))
+    if impl[FLAT_AT] != model[FLAT_AT]:
+        agree = False
+        ctx.violation({"kind": "model-vs-impl", "what": "flatten_space length / leaves"}, f"{name}: flatten_space gives {impl[FLAT_AT]!r}, the model {model[FLAT_AT]!r}",
+                      {"case": name, "cfg": cfg})
+    if impl[FLAT_AT] == "raised":
+        ctx.violation({"kind": "flatten-raises", "site": "gymnasium.spaces.flatten", "cause": "empty-dict-subspace", "property_oracle": "flatten(space, obs) is defined"},
+                      f"{name}: the declared space contains a Dict without sub-spaces; gymnasium cannot flatten it (flatten_obs would make reset raise)",
+                      {"case": name, "cfg": cfg, "flatten": True})
+    if case.get("flat_bad"):
+        ctx.violation({"kind": "flatten-inconsistent", "property_oracle": "len(flatten(space, obs)) == flatten_space(space).shape[0]"},
+                      f"{name}: {case['flat_bad']}", {"case": name, "cfg": cfg, "capture": case["capture"], "states": case["states"]})
+    for idx in range(DEFAULT_AT, len(impl)):
         o, contained, exc, fb = impl[idx]
         mv, mcontained = parse_report(model[idx])
-        what = "default" if idx == 4 else f"observe#{idx - 5}"
+        what = "default" if idx == DEFAULT_AT else f"observe#{idx - FIRST_OBS}"
         ctx.count("component:" + ("raised" if o == "raised" else "in-space" if contained else "not-in-space"))
         # the property's oracle on the implementation
         if not contained:
             sig = rig.diagnose(case["space"], o, exc, case["facts"])
             ctx.violation(dict(sig, property_oracle="space.contains(observe(state))"),
                           f"{name} {what}: observation is not a member of the declared space ({exc or sig})",
-                          {"case": name, "capture": case["capture"], "cfg": case["facts"]["cfg"],
-                           "state": case["states"][idx - 5] if idx >= 5 else None, "observation": o, "exception": exc})
+                          {"case": name, "capture": case["capture"], "cfg": cfg,
+                           "state": case["states"][idx - FIRST_OBS] if idx >= FIRST_OBS else None,
+                           "states": case["states"][:idx - FIRST_OBS + 1] if idx >= FIRST_OBS else [], "observation": o, "exception": exc})
         # correspondence
         if fb and o != "raised" and mv != "raised" and o != mv and rig.strip_bins(o) == rig.strip_bins(mv) and contained == mcontained:
             ctx.count("component:float-boundary-step (bins differ only by float rounding; excluded)")
@@ -94,121 +284,71 @@ def check_case(ctx: Ctx, name: str, case: dict, model: List[str]) -> bool:
             agree = False
             ctx.violation({"kind": "model-vs-impl", "what": "observe", "class": "component"},
                           f"{name} {what}: implementation and model disagree: {rig.first_diff(o, mv) if o != mv else f'contains impl={contained} model={mcontained}'}",
-                          {"case": name, "capture": case["capture"], "cfg": case["facts"]["cfg"], "lines": case["lines"][:idx + 1][-3:],
+                          {"case": name, "capture": case["capture"], "cfg": cfg, "lines": case["lines"][:idx + 1][-3:],
                            "impl": o, "model": mv})
     return agree
 
 
 # ---------------------------------------------------------------------------------------------------- environment level
-def env_trajectory(ctx: Ctx, rel: str, cfg: dict, rng: Rng, episodes: int, steps: int, want_truth: bool = False, chaos=None) -> dict:
-    """Run the real environment; collect, per agent with an observation space, the model lines and the implementation's answers."""
-    import gymnasium
-    import numpy as np
-    env = rig.make_env(cfg)
-    tracks: Dict[str, dict] = {}
-    oracle_fail: List[dict] = []
-    seen_visible: Dict[tuple, int] = {}
-    incoherent: List[dict] = []
+def env_recipes(ctx: Ctx, rng: Rng, truth: bool = False) -> List[dict]:
+    """The trajectories of one run, as recipes (re-executable one by one).  Families: shipped scenarios as they are; `toggle` /
+    `regen` variants (observation options switched / a generated observation space with non-default nodes-level options, explicit
+    lists, routers with ACL sub-configs); generated small scenarios (LAN / routed / DMZ); shipped episode schedules; generated
+    schedules whose episodes observe different things (and one whose episodes are all alike)."""
+    out: List[dict] = []
+    scen = rig.SCENARIOS if ctx.thorough else rig.SCENARIOS[:6]
+    eps, steps = ctx.scale(2, 3), ctx.scale(30 if truth else 20, 60)
 
-    def snapshot(tag: str, ep: int, step: int, env_obs):
-        game = env.game
-        state = game.get_sim_state()
-        toks, pairs = rig.state_tokens(state)
-        fb = rig.float_boundary(pairs)
-        ttoks = rig.truth_tokens(game.simulation) if want_truth else None
-        if want_truth:
-            for node in game.simulation.network.nodes.values():
-                for f in node.file_system.folders.values():
-                    key = (ep, node.config.hostname, f.name)
-                    prev = seen_visible.get(key, 0)
-                    cur_v = f.visible_health_status.value
-                    if cur_v != prev and not f._scanned_this_step and node.operating_state.value == 1:
-                        incoherent.append({"scenario": rel, "episode": ep, "step": step, "folder": f"{node.config.hostname}/{f.name}", "visible": [prev, cur_v]})
-                    seen_visible[key] = cur_v
-        for name, agent in rig.agents_with_obs(game):
-            tr = tracks[f"{ep}:{name}"]
-            cur = agent.observation_manager.current_observation
-            sp = agent.observation_manager.space
-            ok_nested = bool(sp.contains(cur))
-            tr["lines"].append(("spec " + " ".join(ttoks)) if want_truth else ("obs " + " ".join(toks)))
-            tr["impl"].append((rig.canon(cur), ok_nested, fb))
-            ctx.count("env:nested-in-space" if ok_nested else "env:nested-NOT-in-space")
-            if not ok_nested:
-                bad = rig.leaves_out_of_space(rig.canon(cur), rig.canon_space(sp))
-                oracle_fail.append({"scenario": rel, "agent": name, "episode": ep, "step": step, "bad": bad[:4]})
-        # what the gymnasium API actually returned to the RL agent
-        a = env.agent
-        osp = env.observation_space
-        inside = bool(osp.contains(env_obs))
-        ctx.count(("env:flat" if a.flatten_obs else "env:nested-api") + ("-in-space" if inside else "-NOT-in-space"))
-        if not inside:
-            oracle_fail.append({"scenario": rel, "agent": "<api>", "episode": ep, "step": step, "bad": ["returned observation not in observation_space"],
-                                "flatten": bool(a.flatten_obs)})
-        if a.flatten_obs:
-            again = gymnasium.spaces.flatten(a.observation_manager.space, a.observation_manager.current_observation)
-            if not np.array_equal(again, env_obs):
-                oracle_fail.append({"scenario": rel, "agent": "<api>", "episode": ep, "step": step, "bad": ["flatten(obs) differs from returned array"]})
-        return osp
-
-    first_space = None
-    first_action_n = None
-    for ep in range(episodes):
-        obs, _ = env.reset()
-        for name, agent in rig.agents_with_obs(env.game):
-            tracks[f"{ep}:{name}"] = {"lines": ["reset", f"capture {rig.B(rig.capture_flag())}", "cfg " + " ".join(rig.obj_tokens(agent.observation_manager.obs)), "space"],
-                                      "impl": ["ok", "ok", "ok", rig.canon_space(agent.observation_manager.space)]}
-        osp = snapshot("reset", ep, 0, obs)
-        # space constant over episodes (C02's second clause)
-        desc = (repr(osp), int(env.action_space.n))
-        if first_space is None:
-            first_space = desc
-        elif desc != first_space:
-            oracle_fail.append({"scenario": rel, "agent": "<api>", "episode": ep, "step": 0, "bad": ["observation/action space changed between episodes"]})
-        n = int(env.action_space.n)
-        for t in range(steps):
-            # adversarial bias: repeat one action for a while (many creations / scans in a row), else uniform
-            if t % 7 == 0:
-                burst = rng.below(n)
-            act = burst if rng.chance(1, 2) else rng.below(n)
-            if chaos is not None:
-                chaos(env.game, rng)
-            obs, _r, _te, trunc, _info = env.step(act)
-            ctx.count("env:steps")
-            snapshot("step", ep, t + 1, obs)
-            if trunc:
-                break
-    env.close()
-    return {"tracks": tracks, "oracle_fail": oracle_fail, "incoherent": incoherent}
+    def add(family, label, **kw):
+        out.append(dict({"family": family, "label": label, "traj_seed": rng.next(), "variant_seed": rng.next(), "episodes": eps, "steps": steps,
+                         "truth": truth, "chaos": False}, **kw))
+    for rel in scen:
+        short = rel.rsplit("/", 1)[-1] + ("@tests" if rel.startswith("tests/") and any(r != rel and r.endswith("/" + rel.rsplit("/", 1)[-1]) for r in scen) else "")
+        add("shipped", short, rel=rel)
+        for i in range(ctx.scale(1, 2)):
+            add("toggle", f"{short}#toggle{i}", rel=rel, chaos=truth)
+        for i in range(ctx.scale(2 if truth else 1, 2)):
+            add("regen", f"{short}#regen{i}", rel=rel, chaos=truth)
+    for i in range(ctx.scale(9 if truth else 4, 18)):
+        add("generated", f"generated#{i}", topology=["lan", "routed", "dmz"][i % 3], size=1 + (i // 3) % 2, episodes=2, steps=ctx.scale(20 if truth else 14, 60),
+            chaos=truth and i % 3 != 2)
+    for rel in env.SCHEDULE_DIRS:
+        add("schedule-shipped", rel.rsplit("/", 1)[-1] + "@" + rel.split("/")[0], rel=rel, episodes=ctx.scale(4, 6), steps=ctx.scale(6, 30))
+    if ctx.thorough:
+        add("schedule-shipped", "uc7_multiple_attack_variants", rel="src/primaite/config/_package_data/uc7_multiple_attack_variants", episodes=6, steps=20)
+    for i in range(ctx.scale(3, 9)):
+        rel = env.SCHEDULE_BASES[i % len(env.SCHEDULE_BASES)]
+        add("schedule-generated", f"{rel.rsplit('/', 1)[-1]}#schedule{i}", rel=rel, n_episodes=3, same=(i % 3 == 2), flatten=(i % 2 == 0),
+            episodes=4, steps=ctx.scale(5, 25))
+    return out
 
 
-def check_env(ctx: Ctx, rel: str, res: dict, model_by_track: Dict[str, List[str]], spec_mode: bool = False) -> bool:
-    agree = True
-    for f in res["oracle_fail"]:
-        leaf = f["bad"][0].rsplit("/", 1)[-1] if f["bad"] else "?"
-        ctx.violation({"kind": "env-not-in-space", "leaf": leaf.split(":", 1)[-1], "property_oracle": "observation_space.contains(obs)"},
-                      f"{rel}: observation outside the declared space at episode {f['episode']} step {f['step']} ({f['bad']})", f)
-    for key, tr in res["tracks"].items():
-        model = model_by_track[key]
-        mspace = rig.parse_val(model[3].split())
-        if mspace != tr["impl"][3]:
-            agree = False
-            ctx.violation({"kind": "model-vs-impl", "what": "space", "class": "env"}, f"{rel} {key}: space differs: {rig.first_diff(tr['impl'][3], mspace)}",
-                          {"scenario": rel, "track": key})
-        for idx in range(4, len(tr["impl"])):
-            o, contained, fb = tr["impl"][idx]
-            if spec_mode:
-                continue
-            mv, mcontained = parse_report(model[idx])
-            if fb and o != mv and rig.strip_bins(o) == rig.strip_bins(mv) and contained == mcontained:
-                ctx.count("env:float-boundary-step (excluded)")
-                continue
-            if o != mv or contained != mcontained:
-                agree = False
-                ctx.violation({"kind": "model-vs-impl", "what": "observe", "class": "env"},
-                              f"{rel} {key} step {idx - 4}: implementation and model disagree: {rig.first_diff(o, mv) if o != mv else 'contains'}",
-                              {"scenario": rel, "track": key, "step": idx - 4, "diff": rig.first_diff(o, mv)})
-                break
-    return agree
+def run_env_recipes(ctx: Ctx, recipes: List[dict], chaos=None) -> List[Tuple[str, dict]]:
+    runs = []
+    labels = [rc["label"] for rc in recipes]
+    if len(set(labels)) != len(labels):
+        raise RuntimeError(f"recipe labels must be unique: {sorted(l for l in set(labels) if labels.count(l) > 1)}")
+    for rc in recipes:
+        ctx.count("env:family:" + rc["family"])
+        try:
+            res = env.run_recipe(ctx, rc, chaos=chaos)
+        except Exception as e:  # noqa: BLE001 - an exception out of reset/step IS an observation failure when it comes from observe()
+            import traceback
+            tb = traceback.format_exc()
+            if "need at least one array to concatenate" in str(e) and "gymnasium/spaces/utils" in tb:
+                ctx.violation({"kind": "flatten-raises", "site": "gymnasium.spaces.flatten", "cause": "empty-dict-subspace", "class": "env"},
+                              f"{rc['label']}: observation_space / reset / step raise: gymnasium cannot flatten a Dict without sub-spaces",
+                              {"recipe": rc, "traceback": tb[-800:]})
+            elif "observations/" in tb or "gymnasium/spaces" in tb:
+                ctx.violation({"kind": "env-raises", "site": tb.strip().splitlines()[-3].strip()[:120]},
+                              f"{rc['label']}: step/reset raised inside the observation layer: {type(e).__name__}: {e}",
+                              {"recipe": rc, "traceback": tb[-1500:]})
+            else:
+                ctx.count("env:variant-rejected-or-failed-outside-observations")
+                ctx.notes.append(f"{rc['label']}: {type(e).__name__}: {str(e)[:160]}")
+            continue
+        runs.append((rc["label"], res))
+    return runs
 
 
 # ---------------------------------------------------------------------------------------------------- corpus / replay
@@ -236,8 +376,75 @@ def _intkeys(x):
     return x
 
 
+def construction_agrees(cfg: dict, capture: bool = False) -> Tuple[bool, str]:
+    """Is the object the implementation builds from this manager configuration the one the model builds from the same words
+    (both reject, or the same object tokens, space and default observation)?"""
+    rig.set_capture(capture)
+    obj = rig.build_impl(cfg)
+    osp, th = rig.split_cfg(cfg)
+    out = run_driver(EXE, ["reset", f"capture {rig.B(capture)}", rig.rawcfg_line(osp, th), "show", "space", "default"])
+    if obj is None:
+        return out[2] == "rejected", f"implementation rejects ({getattr(rig.build_impl, 'last_error', '?')}), model: {out[2]}"
+    if out[2] != "ok":
+        return False, f"implementation accepts, model: {out[2]}"
+    toks = " ".join(rig.obj_tokens(obj, fresh=True))
+    if toks != out[3]:
+        return False, token_diff(toks, out[3])
+    if rig.parse_val(out[4].split()) != rig.canon_space(obj.space):
+        return False, "space differs: " + str(rig.first_diff(rig.canon_space(obj.space), rig.parse_val(out[4].split())))
+    mv, _ = parse_report(out[5])
+    if mv != rig.canon(obj.default_observation):
+        return False, "default observation differs: " + str(rig.first_diff(rig.canon(obj.default_observation), mv))
+    return True, "same object"
+
+
+def replay_component(r: dict) -> bool:
+    """a component-level record (generated configuration + capture flag + the state sequence): re-run the property's oracle"""
+    rig.set_capture(bool(r.get("capture", False)))
+    ev = rig.enum_values()
+    if tree_oracle(r["cfg"], ev):
+        return False
+    obj = rig.build_impl(r["cfg"])
+    if obj is None:
+        return True
+    nodes = rig.walk(obj)
+    before = {path: rig.canon(o.default_observation) for path, o in nodes}
+    for st in r.get("states") or ([r["state"]] if r.get("state") else []):
+        o, exc, raw = rig.observe_impl(obj, _intkeys(st))
+        if o == "raised" or not obj.space.contains(raw):
+            return False
+    return all(rig.canon(o.default_observation) == before[path] for path, o in nodes)
+
+
+def replay_env(r: dict, prop: str = "C02") -> bool:
+    """an environment-level record: run its recipe again (same derived seeds) and apply the same checks"""
+    ctx = Ctx(prop, "quick", 0)
+    chaos = None
+    if r["recipe"].get("chaos"):
+        from harness.props import c09
+        chaos = c09.chaos
+    runs = run_env_recipes(ctx, [r["recipe"]], chaos=chaos)
+    models = env.run_model(EXE, runs)
+    for rname, res in runs:
+        env.check_env(ctx, rname, res, models[rname], spec_mode=bool(r["recipe"].get("truth")))
+        if r["recipe"].get("truth"):
+            from harness.props import c09
+            c09.check_truth_run(ctx, rname, res, models[rname])
+    return not ctx.violations
+
+
 def replay(rec: dict) -> bool:
     r = rec.get("replay", rec)
+    if r.get("flatten") and "cfg" in r:
+        obj = rig.build_impl(r["cfg"])
+        dim, bad = flatten_probe(obj.space, obj.default_observation)
+        return dim != "raised" and not bad
+    if "recipe" in r:
+        return replay_env(r)
+    if "cfg" in r and "diff" in r and "recipe" not in r:
+        return construction_agrees(r["cfg"], bool(r.get("capture", False)))[0]
+    if "cfg" in r and (r.get("state") is not None or "states" in r or "problem" in r) and "sig" not in r:
+        return replay_component(r)
     if "cfg" in r and r.get("state") is not None:
         ok, _ = run_corpus_case(r)
         return ok
@@ -245,38 +452,43 @@ def replay(rec: dict) -> bool:
 
 
 # ---------------------------------------------------------------------------------------------------- run
-def run(ctx: Ctx):
-    with lean_lock():
-        ctx.extract(x_enums.GEN_NAME, x_enums.emit)
-        ctx.extract(x_tables.GEN_NAME, x_tables.emit)
-        ctx.prove(MODULES, exes=[EXE], clean=False, leanchecker=ctx.thorough)
-    ctx.cov["rule"] = ("component cases = (real observation tree built by ObservationManager from a generated config, capture flag, sequence of "
-                       "synthetic states over every enum value x counts past the top threshold x absent/off x traffic up to 10x speed); env cases = "
-                       "trajectory of a shipped/mutated scenario; a case is non-trivial when some observed component is present on an ON node; "
-                       "distinct by canonical JSON of (config, states)")
-    # Gen cross-check against the imported implementation
-    ev = rig.enum_values()
-    gen = {n: [v for _, v in m] for n, (_, m) in x_enums.read_enums().items()}
-    ctx.oblige("gen:ObsEnums equals list(Enum) at run time", "extractor", all(gen.get(k) == v for k, v in ev.items()),
-               json.dumps({k: (gen.get(k), v) for k, v in ev.items() if gen.get(k) != v}))
+def guarded(ctx: Ctx, name: str, fn, *a):
+    """A rig family must never take the whole run down: a crash inside it (a rig assumption the changed code no longer meets) is a
+    broken correspondence obligation, reported with its traceback; the other families still run and search for a concrete input."""
+    import traceback
+    try:
+        return fn(*a)
+    except Exception as e:  # noqa: BLE001
+        ctx.oblige(f"rig:{name} ran to completion", "correspondence", False, f"{type(e).__name__}: {e}\n{traceback.format_exc()[-1800:]}")
+        return None
 
-    # ---- corpus first: witnesses of fixed findings must now be in space; witnesses of open findings still fail (KNOWN-FINDING)
+
+def corpus_family(ctx: Ctx):
+    """witnesses of fixed findings must now be in space; witnesses of open findings still fail (KNOWN-FINDING)"""
     for f in sorted((VERIF / "corpus" / "C02").glob("*.json")):
         rec = json.loads(f.read_text())
-        ok, detail = run_corpus_case(rec)
+        if rec.get("flatten"):
+            obj = rig.build_impl(rec["cfg"])
+            dim, bad = flatten_probe(obj.space, obj.default_observation)
+            ok, detail = dim != "raised" and not bad, f"flatten: {dim} {bad or ''}"
+        elif "recipe" in rec or "states" in rec:
+            ok, detail = replay(rec), "replayed"
+        else:
+            ok, detail = run_corpus_case(rec)
         ctx.count("corpus:" + ("in-space" if ok else "not-in-space"))
         ctx.case({"corpus": f.name}, True)
         if not ok:
             ctx.violation(dict(rec["sig"], property_oracle="space.contains(observe(state))"),
                           f"corpus {f.name}: {rec['what']} ({detail})", dict(rec, corpus=f.name))
 
-    # ---- component level
-    n_cases = ctx.scale(220, 4000)
+
+def component_family(ctx: Ctx):
+    n_cases = ctx.scale(220, 3000)
     rng = ctx.rng.fork("obs-components")
     cases = []
     t0 = time.time()
     for k in range(n_cases):
-        cases.append((f"gen:{k}", component_case(rng, n_states=ctx.scale(4, 6), defects=(k % 10 == 0))))
+        cases.append((f"gen:{k}", component_case(rng, n_states=ctx.scale(4, 6), defects=(k % 10 == 0), invalid=(k % 13 == 7))))
     lines_all: List[str] = []
     bounds = []
     for name, c in cases:
@@ -289,50 +501,50 @@ def run(ctx: Ctx):
     agree = 0
     for (name, c), (st, ln) in zip(cases, bounds):
         ctx.cov["traces_validated_against_impl"] += 1
-        nontrivial = any(isinstance(x, tuple) and x[0] != "raised" and "HOST0" in json.dumps(x[0]) for x in c["impl"][5:])
+        nontrivial = any(isinstance(x, tuple) and x[0] != "raised" and "HOST0" in json.dumps(x[0]) for x in c["impl"][FIRST_OBS:])
         ctx.case({"cfg": c["facts"]["cfg"], "capture": c["capture"], "states": c["states"]}, nontrivial)
+        ctx.count("component:objects-checked-by-tree-oracle", c.get("objects", 0))
+        length_relations(ctx, c["facts"]["cfg"])
         if check_case(ctx, name, c, model_all[st:st + ln]):
             agree += 1
-            ctx.sample({"case": name, "model_lines": [l[:160] for l in c["lines"][2:6]], "answers": [m[:160] for m in model_all[st + 2:st + 6]]}, cap=2)
+            ctx.sample({"case": name, "model_lines": [l[:160] for l in c["lines"][2:7]], "answers": [m[:160] for m in model_all[st + 2:st + 7]]}, cap=2)
     ctx.oblige("rig:R-obs components agree on every case", "correspondence", agree == len(cases), f"{len(cases) - agree} of {len(cases)} cases disagree")
     ctx.notes.append(f"component level: {len(cases)} object trees, {sum(len(c['states']) for _, c in cases)} observe calls, {time.time() - t0:.1f}s")
 
-    # ---- environment level
-    rng = ctx.rng.fork("obs-env")
-    runs = []
-    scen = rig.SCENARIOS if ctx.thorough else rig.SCENARIOS[:6]
-    for rel in scen:
-        base = rig.load_cfg(rel)
-        variants = [base] + [rig.mutate_cfg(base, rng) for _ in range(ctx.scale(2, 4))]
-        for vi, cfg in enumerate(variants):
-            try:
-                res = env_trajectory(ctx, rel, cfg, rng, episodes=ctx.scale(2, 3), steps=ctx.scale(30, 100))
-            except Exception as e:  # noqa: BLE001 - an exception out of reset/step IS an observation failure when it comes from observe()
-                import traceback
-                tb = traceback.format_exc()
-                if "observations/" in tb:
-                    ctx.violation({"kind": "env-raises", "site": tb.strip().splitlines()[-3].strip()[:120]},
-                                  f"{rel} variant {vi}: step/reset raised inside the observation layer: {type(e).__name__}: {e}",
-                                  {"scenario": rel, "variant": vi, "traceback": tb[-1500:]})
-                else:
-                    ctx.count("env:variant-rejected-or-failed-outside-observations")
-                    ctx.notes.append(f"{rel} variant {vi}: {type(e).__name__}: {str(e)[:120]}")
-                continue
-            runs.append((f"{rel}#{vi}", res))
-    lines_all, index = [], {}
-    for rname, res in runs:
-        for key, tr in res["tracks"].items():
-            index[(rname, key)] = (len(lines_all), len(tr["lines"]))
-            lines_all += tr["lines"]
-    model_all = run_driver(EXE, lines_all) if lines_all else []
-    if any(m == "bad-op" for m in model_all):
-        i = model_all.index("bad-op")
-        raise RuntimeError(f"driver rejected line {lines_all[i][:300]!r}")
+
+def env_family(ctx: Ctx):
+    recipes = env_recipes(ctx, ctx.rng.fork("obs-env"))
+    t0 = time.time()
+    runs = run_env_recipes(ctx, recipes)
+    models = env.run_model(EXE, runs)
     agree = 0
     for rname, res in runs:
-        by_track = {key: model_all[index[(rname, key)][0]: index[(rname, key)][0] + index[(rname, key)][1]] for key in res["tracks"]}
         ctx.cov["traces_validated_against_impl"] += len(res["tracks"])
-        ctx.case({"env": rname, "n": sum(len(t["impl"]) for t in res["tracks"].values())}, True)
-        if check_env(ctx, rname, res, by_track):
+        ctx.case({"env": rname, "recipe": res["recipe"], "n": sum(len(t["impl"]) for t in res["tracks"].values())}, True)
+        if env.check_env(ctx, rname, res, models[rname]):
             agree += 1
     ctx.oblige("rig:R-env observation trajectories agree with the model", "correspondence", agree == len(runs), f"{len(runs) - agree} of {len(runs)} runs disagree")
+    ctx.notes.append(f"environment level: {len(runs)} of {len(recipes)} recipes ran, {ctx.hist.get('env:steps', 0)} steps, {time.time() - t0:.1f}s")
+
+
+def run(ctx: Ctx):
+    with lean_lock():
+        ctx.extract(x_enums.GEN_NAME, x_enums.emit)
+        ctx.extract(x_tables.GEN_NAME, x_tables.emit)
+        ctx.extract(x_cfg.GEN_NAME, x_cfg.emit)
+        ctx.prove(MODULES, exes=[EXE], clean=False, leanchecker=ctx.thorough)
+    ctx.cov["rule"] = ("component cases = (real observation tree built by ObservationManager from a generated scenario-style configuration - explicit "
+                       "lists shorter/equal/longer than their counts, per-node overrides, ACL sub-configs, rejected configurations - , capture flag, "
+                       "sequence of synthetic states over every enum value x counts past the top threshold x absent/off x traffic up to 10x speed); the "
+                       "model builds its object from the same configuration text; every object of every tree goes through the default/space/ON-observe "
+                       "key-structure oracle; env cases = one recipe (shipped / toggled / regenerated observation space / generated scenario / shipped "
+                       "or generated episode schedule); a component case is non-trivial when some observed component is present on an ON node; "
+                       "distinct by canonical JSON of (config, states) or of the recipe")
+    # Gen cross-check against the imported implementation
+    ev = rig.enum_values()
+    gen = {n: [v for _, v in m] for n, (_, m) in x_enums.read_enums().items()}
+    ctx.oblige("gen:ObsEnums equals list(Enum) at run time", "extractor", all(gen.get(k) == v for k, v in ev.items()),
+               json.dumps({k: (gen.get(k), v) for k, v in ev.items() if gen.get(k) != v}))
+    guarded(ctx, "corpus", corpus_family, ctx)
+    guarded(ctx, "R-obs components", component_family, ctx)
+    guarded(ctx, "R-env", env_family, ctx)
